@@ -32,6 +32,7 @@ GTyped(es) == [g |-> "slice", es |-> es, typed |-> TRUE] \* []T of the elements'
 GMap(ps) == [g |-> "map", ps |-> ps]                     \* sequence of [k, v]
 GStruct(fs) == [g |-> "struct", fs |-> fs]               \* sequence of [n, x (exported), v]
 GBad(u) == [g |-> "unsupported", u |-> u]
+GNamed(u) == [g |-> "named", u |-> u]                  \* a value of a named basic type (type ID uint32, type Status int, type Label string, ...)
 GSameName == [g |-> "samename"]                         \* []any{row{Title}, row{Name, Count}}: two struct types that are both called "row"
 GNilSlice == [g |-> "nilslice"]                          \* var s []string: a slice (of length 0), not a nil value
 GNilMap == [g |-> "nilmap"]                              \* var m map[string]int
@@ -67,6 +68,7 @@ Conv(v) ==
                              vs == [i \in 1..Len(ex) |-> Conv(ex[i].v)] IN
                          IF AnyBad(vs, "err") THEN Err("unsupported") ELSE IF AnyBad(vs, "nilptr") \/ AnyBad(vs, "unspec") THEN Unspec
                          ELSE O([i \in 1..Len(vs) |-> [pk |-> ex[i].n, pv |-> vs[i]]])
+    [] v.g = "named" -> Unspec          \* a number / string like its underlying type, or an error: never a crash (C09)
     [] v.g = "samename" -> A(<<O(<<[pk |-> "Title", pv |-> S("T1")]>>), O(<<[pk |-> "Name", pv |-> S("N2")], [pk |-> "Count", pv |-> [t |-> "int", sym |-> "2"]]>>)>>)
     [] v.g = "nilslice" -> A(<<>>)
     [] v.g = "nilmap" -> O(<<>>)
@@ -132,7 +134,9 @@ BadAt(b) == {GPtr(GStruct(<<Fld("Name", TRUE, GStr("n")), Fld("Val", TRUE, b)>>)
 HiddenBad == {GStruct(<<Fld("Name", TRUE, GStr("n")), Fld("ch", FALSE, GBad("chan"))>>)}
 
 \* Go's nil slices and nil maps are empty collections (C12: same shape; C02: empty arrays and objects are truthy)
-NilColls == {GSameName, GPtr(GSameName), GNilSlice, GNilMap, GPtr(GNilSlice), GSlice(<<GNilSlice, GNilMap>>), GMap(<<KV("k", GNilSlice), KV("m", GNilMap)>>),
+NamedVals == UNION {{GNamed(u), GPtr(GNamed(u)), GSlice(<<GNamed(u)>>), GMap(<<KV("k", GNamed(u))>>), GStruct(<<Fld("Val", TRUE, GNamed(u))>>)} :
+                       u \in {"uint32", "int", "string", "float64", "bool", "uint8", "uintptr-named"}}
+NilColls == NamedVals \cup {GSameName, GPtr(GSameName), GNilSlice, GNilMap, GPtr(GNilSlice), GSlice(<<GNilSlice, GNilMap>>), GMap(<<KV("k", GNilSlice), KV("m", GNilMap)>>),
              GStruct(<<Fld("Tags", TRUE, GNilSlice), Fld("Inner", TRUE, GNilMap), Fld("Name", TRUE, GStr("n"))>>)}
 Values == CASE Family = "scalars" -> Scalars
             [] Family = "g1" -> G1 \cup NilPtrs \cup CaseKeys \cup NilColls
